@@ -610,6 +610,28 @@ func errorHandled(call *ssa.Call) string {
 				return ""
 			}
 		}
+		// the value flows into a result variable (a phi) that is returned or tested: `r = f(); break ... return r`
+		seen := map[ssa.Value]bool{}
+		work := []ssa.Value{ev}
+		for len(work) > 0 && len(seen) < 16 {
+			v := work[0]
+			work = work[1:]
+			if seen[v] || v.Referrers() == nil {
+				continue
+			}
+			seen[v] = true
+			for _, r := range *v.Referrers() {
+				if ph, ok := r.(*ssa.Phi); ok {
+					for _, rr := range *ph.Referrers() {
+						if _, isRet := rr.(*ssa.Return); isRet {
+							return ""
+						}
+					}
+					tests = append(tests, nilTestsOf(ph)...)
+					work = append(work, ph)
+				}
+			}
+		}
 	}
 	if len(tests) == 0 {
 		// stored into a named result that is returned? (`err = f(); return err` without test)
